@@ -101,7 +101,10 @@ Calls ==
                  Call("setstr", <<>>, "s", 0, "", <<>>), Call("setstr", <<>>, "s", 0, "pre-${U", <<>>),
                  Call("setstr", <<>>, "s", 0, "a$b$", <<>>),
                  Call("addtsec", <<>>, "t", 0, "q\"r", <<>>), Call("addtsec", <<>>, "t", 0, "two words", <<>>),
-                 Call("setstr", T1, "p", 0, "# /* x */", <<>>) }
+                 Call("setstr", T1, "p", 0, "# /* x */", <<>>),
+                 (* the ends of the integer range are written and read back like any other number *)
+                 Call("setint", <<>>, "i", 0, "-9223372036854775808", <<>>),
+                 Call("setint", <<>>, "l", 0, "9223372036854775807", <<>>) }
           ELSE {})
 
 SEC3 == <<[oi |-> 6, ii |-> 1]>>
